@@ -389,7 +389,12 @@ VP_HARNESS(h_enc_big)
             vp_assert(fb[1] == 0 && vp_be16(fb.data() + 2) == s->deviceId && fb[5] == s->streamId && fb[0] == s->version, "C09: frame header carries version, device id and stream id");
             vp_assert(vp_be16(fb.data() + 6) == static_cast<uint16_t>(s->start + 1 + f), "C09: consecutive sequence counters");
             size_t pos = 8;
-            for (unsigned m = 0; m < 3; ++m)
+#if defined(HUGE) && MINB > 0
+            const unsigned mmax = 1;  // prefix-copy mode: padding beyond the first 48 bytes of a fill is not modelled as zero, so it is not parsed (K = 1 shapes)
+#else
+            const unsigned mmax = 3;
+#endif
+            for (unsigned m = 0; m < mmax; ++m)
                 if (pos + 16 <= fb.size() && !(MINB > 0 && m > 0 && vp_be16(fb.data() + pos + 14) == 0))
                 {
                     const size_t len = vp_be16(fb.data() + pos + 14);
